@@ -624,6 +624,26 @@ func TestC05(t *testing.T) {
 	})
 }
 
+func fillCases(f func(tag string, bottom *tshape, op string, depth uint64, cnt byte)) {
+	bottoms := []*tshape{{kind: "L", data: []byte{7, 7}}, {kind: "L", data: nil}}
+	for d := 0; d <= 5; d++ {
+		bottoms = append(bottoms, &tshape{kind: "Z", d: d})
+	}
+	bottoms = append(bottoms, &tshape{kind: "P", l: &tshape{kind: "Z", d: 0}, r: &tshape{kind: "L", data: []byte{1}}},
+		&tshape{kind: "P", l: &tshape{kind: "Z", d: 2}, r: &tshape{kind: "Z", d: 2}})
+	for _, b := range bottoms {
+		for depth := uint64(0); depth <= 5; depth++ {
+			f("fill", b, "filld", depth, 0)
+			for _, cnt := range []byte{0, 1, 2, 3, 5, 8, 31, 32, 33} {
+				if uint64(cnt) <= (uint64(1)<<depth)+1 {
+					f("fill", b, "filll", depth, cnt)
+					f("fill", b, "fillc", depth, cnt)
+				}
+			}
+		}
+	}
+}
+
 func TestC06(t *testing.T) {
 	out := openOut(t, "C06")
 	defer out.close()
@@ -680,6 +700,19 @@ func TestC06(t *testing.T) {
 			}
 		}
 	})
+	// tree level: the subtree constructors over every kind of bottom node (a data leaf, the
+	// shared zero nodes of each height, a pair, a hashed pair): no root may be remembered in the
+	// result that is not the root of the node's children
+	withCfg("sha", func(h tree.HashFn) {
+		fillCases(func(tag string, bottom *tshape, op string, depth uint64, cnt byte) {
+			arg := &tshape{kind: "L", data: []byte{cnt}}
+			obs := c11Obs(bottom, op, depth, false, arg, h)
+			if obs == "PANIC" {
+				obs = "res=PANIC"
+			}
+			out.emit(tag, "c11", []string{bottom.Sexp(), op, hx(depth), "0", arg.Sexp()}, obs)
+		})
+	})
 	// the same with a hash function whose roots are mostly zero bytes
 	withCfg("zwin", func(h tree.HashFn) {
 		randomHistories(out, "randz", "zwin!", h, 660, n/2, func(g *gen) *histGen { return &histGen{g: g, r: g.r, memos: true, snaps: true} })
@@ -724,6 +757,11 @@ func TestC07(t *testing.T) {
 					do(hop{kind: "reinit"})
 					do(hop{kind: "count", h: 0})
 				}
+				if k%3 == 1 {
+					// the hashed tree goes through a node-by-node rebuild that keeps its memos
+					do(hop{kind: "rebuild", h: 0})
+					do(hop{kind: "count", h: 0})
+				}
 				hg := &histGen{g: g, r: g.r}
 				for m := 0; m < 6; m++ {
 					// pick a target handle: the root or a (nested) sub-view
@@ -756,6 +794,9 @@ func TestC07(t *testing.T) {
 						if strings.HasPrefix(r, "OK_h") {
 							k := len(s.views) - 1
 							do(hop{kind: "htr", h: k})
+							if m%2 == 1 {
+								do(hop{kind: "rebuild", h: k})
+							}
 							o.src = srcSpec{kind: "h", h: k}
 						}
 					} else if o.src.kind == "h" {
